@@ -310,6 +310,8 @@ class WSStream:
                     await self._send_wsproto_event(
                         CloseConnection(code=CloseReason.MESSAGE_TOO_BIG)
                     )
+                    # Nothing more is accepted from this client
+                    await self.send(StreamClosed(stream_id=self.stream_id))
                     break
 
                 if event.message_finished:
